@@ -81,6 +81,7 @@ fn check_one(
 }
 
 pub fn run(run: &Run) {
+    after_layout_switch(run);
     let mods = modifiers(run.tier);
     let mut items = vec![];
     for layout in [Layout::Probhat, Layout::Synthetic] {
@@ -130,6 +131,56 @@ pub fn run(run: &Run) {
     );
 }
 
+/// "the loaded layout file": a live context re-configured with another fixed layout must emit the new
+/// layout's texts.  Every published key x 4 modifiers x numpad, for each ordered pair of layouts
+/// (incl. phonetic -> fixed), from idle.
+fn after_layout_switch(run: &Run) {
+    let lays: HashMap<Layout, HashMap<String, String>> = [Layout::Probhat, Layout::Synthetic].into_iter().map(|l| (l, load_layout_json(l))).collect();
+    let mut items = vec![];
+    for from in [Layout::Phonetic, Layout::Probhat, Layout::Synthetic] {
+        for to in [Layout::Probhat, Layout::Synthetic] {
+            if from != to {
+                for numpad in [false, true] {
+                    items.push((from, to, numpad));
+                }
+            }
+        }
+    }
+    run.exhaustive(
+        "keys-after-update-engine-to-another-layout",
+        &items,
+        |_| Sandbox::new(),
+        |&(from, to, numpad), st, sb| {
+            let mut o1 = Opts::parse("D");
+            o1.layout = from;
+            o1.numpad = numpad;
+            let mut o2 = o1;
+            o2.layout = to;
+            let mut ctx = Ctx::new(o1, sb).map_err(|p| Failure::new(panic_kind(&p), p.to_string(), json!({})))?;
+            // type and finish a word first, so that the old method has been used
+            let _ = ctx.type_text("k1");
+            let _ = ctx.finish();
+            ctx.update(o2, sb).map_err(|p| Failure::new(panic_kind(&p), p.to_string(), json!({})))?;
+            let it = Item { layout: to, numpad, after_neutral: false, chunk: 0 };
+            let lay = &lays[&to];
+            let nv = lay.get("Key_1_Normal").cloned().unwrap_or_default();
+            for k in &keys().keys {
+                for m in 0u8..4 {
+                    st.evals(1);
+                    check_one(&ctx, lay, &it, k.code, m, (keys().code_for('1'), &nv)).map_err(|mut f| {
+                        f.kind = format!("after-layout-switch:{}", f.kind);
+                        f.message = format!("context created with {from:?}, update-engine to {to:?}: {}", f.message);
+                        f.case["switched_from"] = json!(format!("{from:?}"));
+                        f
+                    })?;
+                }
+            }
+            st.label("layout-switch-pairs");
+            Ok(())
+        },
+    );
+}
+
 pub fn replay(_run: &Run, case: &Value) -> Result<(), Failure> {
     let layout = if case["layout"].as_str() == Some("Synthetic") { Layout::Synthetic } else { Layout::Probhat };
     let it = Item {
@@ -143,7 +194,15 @@ pub fn replay(_run: &Run, case: &Value) -> Result<(), Failure> {
     opts.layout = layout;
     opts.numpad = it.numpad;
     opts.nodata = true;
-    let ctx = Ctx::new(opts, &sb).map_err(|p| Failure::new(panic_kind(&p), p.to_string(), case.clone()))?;
+    let mut ctx = Ctx::new(opts, &sb).map_err(|p| Failure::new(panic_kind(&p), p.to_string(), case.clone()))?;
+    if let Some(from) = case["switched_from"].as_str() {
+        let mut o1 = opts;
+        o1.layout = match from { "Phonetic" => Layout::Phonetic, "Synthetic" => Layout::Synthetic, _ => Layout::Probhat };
+        ctx = Ctx::new(o1, &sb).map_err(|p| Failure::new(panic_kind(&p), p.to_string(), case.clone()))?;
+        let _ = ctx.type_text("k1");
+        let _ = ctx.finish();
+        ctx.update(opts, &sb).map_err(|p| Failure::new(panic_kind(&p), p.to_string(), case.clone()))?;
+    }
     let lay = load_layout_json(layout);
     let nv = lay.get("Key_1_Normal").cloned().unwrap_or_default();
     check_one(&ctx, &lay, &it, case["code"].as_u64().unwrap_or(0) as u16, case["modifier"].as_u64().unwrap_or(0) as u8, (keys().code_for('1'), &nv)).map(|_| ())
